@@ -141,9 +141,14 @@ def recheck(case, tier):
 def snippet(d):
     c = d["case"]
     tpl = K.BY_NAME[c["k"]]
-    return ("# construct %s with s=%s t=%s (python-side presets, if any, are described in mc/ref/mg_constructs.py)\n"
-            "import hy, types\nfrom hy.compiler import hy_compile\ntext = %s\nmod = types.ModuleType('m')\n"
+    exp = str(d.get("detail")).split("; ", 1)[-1]
+    return ("# C34, construct %s: bind through s, read through t\n"
+            "import hy, types\nfrom hy.compiler import hy_compile\n"
+            "s, t = %s, %s\nms, mt = hy.mangle(s), hy.mangle(t)\n"
+            "mod = types.ModuleType('m')\n%s\n"
+            "text = %s\n"
             "exec(compile(hy_compile(hy.read_many(text), mod), '<c34>', 'exec'), mod.__dict__)\n"
-            "print(ascii(mod.__dict__.get('zzres')), ascii(hy.mangle(%s)), ascii(hy.mangle(%s)))\n# %s\n"
-            % (c["k"], ascii(c["s"]), ascii(c["t"]), ascii(tpl.prog(c["s"], c["t"])), ascii(c["s"]), ascii(c["t"]),
-               str(d.get("detail")).replace("\n", "\n# ")))
+            "print('mangle(s) =', ascii(ms), ' mangle(t) =', ascii(mt), ' zzres =', ascii(mod.__dict__.get('zzres')))\n"
+            "# %s\n"
+            % (c["k"], ascii(c["s"]), ascii(c["t"]), K.SNIPPET_SETUP.get(c["k"], "pass"),
+               ascii(tpl.prog(c["s"], c["t"])), exp.replace("\n", " ")))
